@@ -1,1 +1,735 @@
+(* C11 — lemmas.  The invariant [Inv] says, for every stream of the heap: every view cached in its
+   _data_cache wraps that stream's current molar dicts, in the current phase order, with the stream's own
+   TP / phase sources and package; every memo entry of a volumetric view is the oracle's value for the
+   key it is stored under; streams that share a cache dict share data, phases/phase box and package. *)
 From V Require Import Common.NumFacts C11.Model.
+Import ListNotations.
+
+Section Proofs.
+Variable Vf : nat -> phase -> Q -> Q -> Q.
+Variable MWf : nat -> Q.
+Variable pkgs : list (list nat).
+Variable utab : list (option (view * Q)).
+
+Definition entry_ok (pk : nat) (ke : nat * mentry) : Prop :=
+  me_V (snd ke) == 1000 * Vf (gid pkgs pk (fst ke)) (base (me_ph (snd ke))) (me_T (snd ke)) (me_P (snd ke)).
+Definition vrow_ok (pk : nat) (r : vrow) : Prop := Forall (entry_ok pk) (vr_memo r).
+Definition vsrc (r : vrow) : nat * phsrc := (vr_dct r, vr_src r).
+Definition mass_ok h s (v : massview) : Prop := mv_rows v = srcs h s /\ mv_pkg v = pkg s.
+Definition vol_ok h s (v : volview) : Prop :=
+  map vsrc (vv_rows v) = srcs h s /\ vv_tp v = tc s /\ vv_pkg v = pkg s /\ Forall (vrow_ok (pkg s)) (vv_rows v).
+Definition views_ok h s : Prop :=
+  (forall v, c_mass (getcache h (cch s)) = Some v -> mass_ok h s v) /\
+  (forall v, vol_find (tc s) (c_vols (getcache h (cch s))) = Some v -> vol_ok h s v).
+Definition wf_stream h s : Prop :=
+  (cch s < length (caches h))%nat /\ (multi s = true -> (sdata s < length (arrs h))%nat).
+Definition same_owner s1 s2 : Prop :=
+  sdata s1 = sdata s2 /\ multi s1 = multi s2 /\ pkg s1 = pkg s2 /\
+  (multi s1 = true -> phs s1 = phs s2) /\ (multi s1 = false -> pbox s1 = pbox s2).
+Definition stream_inv h s : Prop :=
+  wf_stream h s /\ views_ok h s /\
+  forall j s2, nth_error (streams h) j = Some s2 -> cch s = cch s2 -> same_owner s s2.
+Definition Inv h : Prop := forall i s, nth_error (streams h) i = Some s -> stream_inv h s.
+
+Lemma phase_eqb_eq a b : phase_eqb a b = true -> a = b.
+Proof. destruct a, b; simpl; intros H; try reflexivity; discriminate. Qed.
+Lemma phase_eqb_refl a : phase_eqb a a = true.
+Proof. destruct a; reflexivity. Qed.
+
+(* ---------- generic list facts ---------- *)
+Lemma nth_app_lt {A} (l m : list A) i d : (i < length l)%nat -> nth i (l ++ m) d = nth i l d.
+Proof. intros H. apply app_nth1. exact H. Qed.
+
+Lemma nth_upd_eq {A} (l : list A) i x d : (i < length l)%nat -> nth i (upd l i x) d = x.
+Proof.
+  revert i; induction l as [|a l IH]; intros [|i] H; simpl in *; try lia; auto. apply IH. lia.
+Qed.
+Lemma nth_upd_neq {A} (l : list A) i j x d : i <> j -> nth j (upd l i x) d = nth j l d.
+Proof.
+  revert i j; induction l as [|a l IH]; intros [|i] [|j] H; simpl; auto; try congruence.
+Qed.
+Lemma nth_error_upd_eq {A} (l : list A) i x y :
+  nth_error (upd l i x) i = Some y -> y = x.
+Proof.
+  revert i; induction l as [|a l IH]; intros [|i] H; simpl in *; try discriminate.
+  - congruence.
+  - eauto.
+Qed.
+Lemma upd_same {A} (l : list A) i x : nth_error l i = Some x -> upd l i x = l.
+Proof.
+  revert i; induction l as [|a l IH]; intros [|i] H; simpl in *; try discriminate; auto.
+  - congruence.
+  - f_equal. auto.
+Qed.
+Lemma upd_upd {A} (l : list A) i x y : upd (upd l i x) i y = upd l i y.
+Proof. revert i; induction l as [|a l IH]; intros [|i]; simpl; auto. f_equal. auto. Qed.
+Lemma nth_error_lt {A} (l : list A) i x : nth_error l i = Some x -> (i < length l)%nat.
+Proof. intros H. apply nth_error_Some. congruence. Qed.
+
+(* ---------- what the invariant depends on ---------- *)
+Lemma same_owner_srcs h s1 s2 : same_owner s1 s2 -> srcs h s1 = srcs h s2.
+Proof.
+  intros (D & M & _ & PH & PB). unfold srcs. rewrite <- M, <- D.
+  destruct (multi s1) eqn:E.
+  - rewrite (PH eq_refl). reflexivity.
+  - rewrite (PB eq_refl). reflexivity.
+Qed.
+Lemma same_owner_refl s : same_owner s s.
+Proof. repeat split; auto. Qed.
+Lemma same_owner_sym a b : same_owner a b -> same_owner b a.
+Proof.
+  intros (D & M & K & PH & PB). repeat split; try congruence.
+  - intros E. symmetry. apply PH. congruence.
+  - intros E. symmetry. apply PB. congruence.
+Qed.
+Lemma same_owner_trans a b c : same_owner a b -> same_owner b c -> same_owner a c.
+Proof.
+  intros (D & M & K & PH & PB) (D' & M' & K' & PH' & PB'). repeat split; try congruence.
+  - intros E. rewrite (PH E). apply PH'. congruence.
+  - intros E. rewrite (PB E). apply PB'. congruence.
+Qed.
+
+Lemma srcs_ext h h' s :
+  (multi s = true -> getarr h' (sdata s) = getarr h (sdata s)) -> srcs h' s = srcs h s.
+Proof. intros H. unfold srcs. destruct (multi s); auto. rewrite H; auto. Qed.
+
+Lemma mass_ok_ext h h' s v : srcs h' s = srcs h s -> mass_ok h s v -> mass_ok h' s v.
+Proof. intros E (A & B). split; congruence. Qed.
+Lemma vol_ok_ext h h' s v : srcs h' s = srcs h s -> vol_ok h s v -> vol_ok h' s v.
+Proof. intros E (A & B & C & D). repeat split; try congruence. Qed.
+
+(* heaps with the same arrays, caches and streams satisfy the invariant together *)
+Lemma inv_struct h h' :
+  arrs h' = arrs h -> caches h' = caches h -> streams h' = streams h -> Inv h -> Inv h'.
+Proof.
+  intros A C S I i s Hs. rewrite S in Hs. destruct (I i s Hs) as (W & (VM & VV) & SH).
+  assert (E : srcs h' s = srcs h s) by (apply srcs_ext; intros _; unfold getarr; rewrite A; reflexivity).
+  split; [|split].
+  - unfold wf_stream. rewrite A, C. exact W.
+  - unfold views_ok, getcache. rewrite C. split; intros v Hv.
+    + eapply mass_ok_ext; [exact E|]. apply VM; exact Hv.
+    + eapply vol_ok_ext; [exact E|]. apply VV; exact Hv.
+  - rewrite S. exact SH.
+Qed.
+
+(* ---------- updating the cache cell of a stream ---------- *)
+Lemma getcache_put_eq h c x : (c < length (caches h))%nat -> getcache (put_cache h c x) c = x.
+Proof. intros H. unfold getcache, put_cache; simpl. apply nth_upd_eq; auto. Qed.
+Lemma getcache_put_neq h c c' x : c <> c' -> getcache (put_cache h c x) c' = getcache h c'.
+Proof. intros H. unfold getcache, put_cache; simpl. apply nth_upd_neq; auto. Qed.
+
+Lemma vol_find_put_eq t v l : vol_find t (vol_put t v l) = Some v.
+Proof.
+  induction l as [|[k w] l IH]; simpl.
+  - rewrite Nat.eqb_refl. reflexivity.
+  - destruct (Nat.eqb k t) eqn:E; simpl.
+    + rewrite Nat.eqb_refl. reflexivity.
+    + rewrite E. exact IH.
+Qed.
+Lemma vol_find_put_neq t t' v l : t <> t' -> vol_find t' (vol_put t v l) = vol_find t' l.
+Proof.
+  intros N. induction l as [|[k w] l IH]; simpl.
+  - destruct (Nat.eqb t t') eqn:E; auto. apply Nat.eqb_eq in E. contradiction.
+  - destruct (Nat.eqb k t) eqn:E; simpl.
+    + apply Nat.eqb_eq in E. subst k.
+      destruct (Nat.eqb t t') eqn:E2; auto. apply Nat.eqb_eq in E2. contradiction.
+    + destruct (Nat.eqb k t'); auto.
+Qed.
+
+(* replacing the cache cell of stream [s] by one whose views are all right for [s] keeps the invariant *)
+Lemma inv_put_cache h i s x :
+  Inv h -> nth_error (streams h) i = Some s ->
+  (forall v, c_mass x = Some v -> mass_ok h s v) ->
+  (forall t v, vol_find t (c_vols x) = Some v ->
+      (t = tc s /\ vol_ok h s v) \/ vol_find t (c_vols (getcache h (cch s))) = Some v) ->
+  Inv (put_cache h (cch s) x).
+Proof.
+  intros I Hs XM XV j s2 Hs2. simpl in Hs2.
+  destruct (I i s Hs) as ((WC & WA) & (VM & VV) & SH).
+  destruct (I j s2 Hs2) as ((WC2 & WA2) & (VM2 & VV2) & SH2).
+  assert (ES : forall s', srcs (put_cache h (cch s) x) s' = srcs h s') by (intros; reflexivity).
+  split; [|split].
+  - unfold wf_stream; simpl. rewrite upd_length. split; auto.
+  - destruct (Nat.eq_dec (cch s) (cch s2)) as [E|N].
+    + assert (O : same_owner s s2) by (eapply SH; eauto).
+      assert (SS : srcs h s2 = srcs h s) by (symmetry; apply same_owner_srcs; auto).
+      destruct O as (D & M & K & PH & PB).
+      unfold views_ok. rewrite <- E, getcache_put_eq by auto. split; intros v Hv.
+      * destruct (XM v Hv) as (A & B). split; [rewrite ES; congruence | congruence].
+      * destruct (XV _ _ Hv) as [(T & (A & B & C & F))|Old].
+        -- split; [rewrite ES; congruence|split; [congruence|split; [congruence|rewrite <- K; exact F]]].
+        -- rewrite E in Old. destruct (VV2 v Old) as (A & B & C & F). repeat split; auto.
+    + unfold views_ok. rewrite getcache_put_neq by auto. split; intros v Hv.
+      * apply VM2; auto.
+      * apply VV2; auto.
+  - simpl. exact SH2.
+Qed.
+
+Lemma inv_by_mass h i s :
+  Inv h -> nth_error (streams h) i = Some s ->
+  Inv (fst (by_mass h s)) /\ mass_ok h s (snd (by_mass h s)) /\
+  rows (fst (by_mass h s)) = rows h /\ arrs (fst (by_mass h s)) = arrs h /\
+  streams (fst (by_mass h s)) = streams h /\ tps (fst (by_mass h s)) = tps h /\
+  boxes (fst (by_mass h s)) = boxes h.
+Proof.
+  intros I Hs. unfold by_mass. destruct (I i s Hs) as (W & (VM & VV) & SH).
+  destruct (c_mass (getcache h (cch s))) as [v|] eqn:E; simpl.
+  - split; [exact I|]. split; [apply VM; reflexivity|]. repeat split; reflexivity.
+  - split; [|split; [split; reflexivity|repeat split; reflexivity]].
+    eapply inv_put_cache; [exact I|exact Hs| |]; simpl.
+    + intros v Hv. inversion Hv; subst. split; reflexivity.
+    + intros t v Hv. right. exact Hv.
+Qed.
+
+Lemma by_volume_ok h i s :
+  Inv h -> nth_error (streams h) i = Some s -> vol_ok h s (by_volume h s).
+Proof.
+  intros I Hs. unfold by_volume. destruct (I i s Hs) as (W & (VM & VV) & SH).
+  destruct (vol_find (tc s) (c_vols (getcache h (cch s)))) as [v|] eqn:E.
+  - apply VV; auto.
+  - unfold new_volview, vol_ok; simpl. repeat split; auto.
+    + rewrite map_map. unfold vsrc; simpl. rewrite <- (map_id (srcs h s)) at 2.
+      apply map_ext. intros [a b]; reflexivity.
+    + apply Forall_forall. intros r Hr. apply in_map_iff in Hr. destruct Hr as (x & <- & _).
+      unfold vrow_ok; simpl. constructor.
+Qed.
+
+Lemma inv_store_vol h i s v :
+  Inv h -> nth_error (streams h) i = Some s -> vol_ok h s v -> Inv (store_vol h s v).
+Proof.
+  intros I Hs OK. unfold store_vol. eapply inv_put_cache; [exact I|exact Hs| |]; simpl.
+  - intros w Hw. destruct (I i s Hs) as (_ & (VM & _) & _). apply VM; auto.
+  - intros t w Hw. destruct (Nat.eq_dec (tc s) t) as [E|N].
+    + subst t. rewrite vol_find_put_eq in Hw. inversion Hw; subst. left; auto.
+    + rewrite vol_find_put_neq in Hw by auto. right; auto.
+Qed.
+
+Lemma views_ok_owner h h' a b :
+  arrs h' = arrs h -> caches h' = caches h -> same_owner a b -> cch a = cch b -> tc a = tc b ->
+  views_ok h b -> views_ok h' a.
+Proof.
+  intros A C O EC ET (VM & VV).
+  assert (SR : srcs h' a = srcs h b).
+  { rewrite (same_owner_srcs h' a b O). apply srcs_ext. intros _. unfold getarr. rewrite A. reflexivity. }
+  destruct O as (_ & _ & K & _). unfold views_ok, getcache. rewrite C, EC, ET. split; intros v Hv.
+  - destruct (VM v Hv) as (X & Y). split; congruence.
+  - destruct (VV v Hv) as (X & Y & Z & F). split; [congruence|split; [congruence|split; [congruence|rewrite K; exact F]]].
+Qed.
+
+(* ---------- allocation frames ---------- *)
+Lemma new_rows_frame h vs :
+  arrs (snd (new_rows h vs)) = arrs h /\ caches (snd (new_rows h vs)) = caches h /\
+  streams (snd (new_rows h vs)) = streams h.
+Proof.
+  revert h; induction vs as [|v vs IH]; intros h; simpl; auto.
+  destruct (new_rows (set_rows h (rows h ++ [v])) vs) as [rs h2] eqn:E. simpl.
+  specialize (IH (set_rows h (rows h ++ [v]))). rewrite E in IH. simpl in IH. exact IH.
+Qed.
+
+(* a stream re-bound to a brand-new, empty cache dict: the situation after unlink, link_with (partial),
+   the phase / phases setters and a property-package reset *)
+Lemma inv_rebind h h1 i s s' a :
+  Inv h -> nth_error (streams h) i = Some s ->
+  streams h1 = streams h -> arrs h1 = arrs h ++ a -> caches h1 = caches h ++ [cache0] ->
+  cch s' = length (caches h) -> (multi s' = true -> (sdata s' < length (arrs h1))%nat) ->
+  Inv (put_stream h1 i s').
+Proof.
+  intros I Hs S A C CS WD j s2 Hs2. simpl in Hs2. rewrite S in Hs2.
+  assert (LI : (i < length (streams h))%nat) by (eapply nth_error_lt; eauto).
+  assert (OLD : forall j s2, j <> i -> nth_error (upd (streams h) i s') j = Some s2 ->
+                 nth_error (streams h) j = Some s2).
+  { intros j0 s0 N H0. rewrite nth_error_upd_other in H0 by auto. exact H0. }
+  assert (FRESH : forall j s3, nth_error (streams h) j = Some s3 -> cch s3 <> length (caches h)).
+  { intros j0 s3 H3. destruct (I j0 s3 H3) as ((W & _) & _). lia. }
+  destruct (Nat.eq_dec j i) as [E|N].
+  - subst j. rewrite nth_error_upd_same in Hs2 by auto. inversion Hs2; subst s2. clear Hs2.
+    split; [|split].
+    + split; simpl. rewrite C, app_length; simpl. lia. exact WD.
+    + unfold views_ok, getcache; simpl. rewrite C, CS, nth_middle. simpl.
+      split; intros v Hv; discriminate.
+    + intros j s3 H3 EC. simpl in H3. rewrite S in H3. destruct (Nat.eq_dec j i) as [E|N].
+      * subst j. rewrite nth_error_upd_same in H3 by auto. inversion H3. apply same_owner_refl.
+      * exfalso. eapply FRESH; [eapply OLD; eauto|]. congruence.
+  - pose proof (OLD j s2 N Hs2) as H2. destruct (I j s2 H2) as ((WC & WA) & (VM & VV) & SH).
+    assert (ES : srcs (put_stream h1 i s') s2 = srcs h s2).
+    { apply srcs_ext. intros M. unfold getarr; simpl. rewrite A. apply nth_app_lt. auto. }
+    assert (EC : getcache (put_stream h1 i s') (cch s2) = getcache h (cch s2)).
+    { unfold getcache; simpl. rewrite C. apply nth_app_lt. auto. }
+    split; [|split].
+    + split; simpl. rewrite C, app_length; simpl. lia.
+      intros M. rewrite A, app_length. specialize (WA M). lia.
+    + unfold views_ok. rewrite EC. split; intros v Hv.
+      * eapply mass_ok_ext; [exact ES|]. apply VM; auto.
+      * eapply vol_ok_ext; [exact ES|]. apply VV; auto.
+    + intros j' s3 H3 EQ. simpl in H3. rewrite S in H3. destruct (Nat.eq_dec j' i) as [E|N'].
+      * subst j'. rewrite nth_error_upd_same in H3 by auto. inversion H3; subst s3.
+        exfalso. apply (FRESH j s2 H2). congruence.
+      * eapply SH; eauto.
+Qed.
+
+Lemma inv_unlink h i s : Inv h -> nth_error (streams h) i = Some s -> Inv (fst (unlink h i s)).
+Proof.
+  intros I Hs. unfold unlink.
+  destruct (multi s) eqn:M.
+  - cbn [new_cache new_box new_tp fst snd].
+    destruct (copy_rows (set_caches h (caches h ++ [cache0]))
+               (getarr (set_caches h (caches h ++ [cache0])) (sdata s))) as [rs hh] eqn:E.
+    pose proof (new_rows_frame (set_caches h (caches h ++ [cache0]))
+                 (map (getrow (set_caches h (caches h ++ [cache0])))
+                      (getarr (set_caches h (caches h ++ [cache0])) (sdata s)))) as F.
+    unfold copy_rows in E. rewrite E in F. simpl in F. destruct F as (FA & FC & FS).
+    cbn [new_arr new_tp fst snd].
+    eapply inv_rebind with (h := h) (a := [rs]); eauto; simpl; try congruence.
+    intros _. rewrite FA, app_length. simpl. lia.
+  - cbn [new_cache new_box new_tp new_row fst snd].
+    eapply inv_rebind with (h := h) (a := []); eauto; simpl; try congruence.
+    rewrite app_nil_r. reflexivity.
+Qed.
+
+Lemma inv_link h i s o f p t :
+  Inv h -> nth_error (streams h) i = Some s -> (exists j, j <> i /\ nth_error (streams h) j = Some o) ->
+  Inv (fst (link_with h i s o f p t)).
+Proof.
+  intros I Hs (j & NJ & Ho). unfold link_with.
+  destruct (negb (Bool.eqb (multi s) (multi o))) eqn:CL; [exact I|].
+  destruct (negb (Nat.eqb (pkg s) (pkg o))) eqn:PK; [exact I|].
+  destruct (multi s && f && negb (phases_eqb (phs s) (phs o))) eqn:PH; [exact I|].
+  apply negb_false_iff in CL. apply Bool.eqb_prop in CL.
+  apply negb_false_iff in PK. apply Nat.eqb_eq in PK.
+  destruct (t && f && (p || multi s)) eqn:SHARE.
+  - (* everything that determines the views is shared: the cache dict may be shared too *)
+    apply andb_prop in SHARE. destruct SHARE as (TF & PM). apply andb_prop in TF. destruct TF as (Tt & Ft).
+    subst t f. cbn [fst snd].
+    assert (PHS : multi s = true -> phs s = phs o).
+    { intros M. rewrite M in PH. simpl in PH. apply negb_false_iff in PH.
+      clear - PH. revert PH. generalize (phs o). induction (phs s) as [|x l IH]; intros [|y m] H; simpl in H; try discriminate; auto.
+      apply andb_prop in H. destruct H as (H1 & H2). apply phase_eqb_eq in H1. subst. f_equal. auto. }
+    set (s1 := mkstream (multi s) (sdata o) (if p && negb (multi s) then pbox o else pbox s) (phs s) (pkg s) (cch o) (tc o)).
+    assert (OWN : same_owner s1 o).
+    { unfold s1. repeat split; simpl; auto.
+      intros M. rewrite M in PM. rewrite orb_false_r in PM. subst p. rewrite M. reflexivity. }
+    assert (LI : (i < length (streams h))%nat) by (eapply nth_error_lt; eauto).
+    destruct (I j o Ho) as ((WCo & WAo) & (VMo & VVo) & SHo).
+    intros k s2 H2. simpl in H2.
+    destruct (Nat.eq_dec k i) as [E|N].
+    + subst k. rewrite nth_error_upd_same in H2 by auto. inversion H2; subst s2. clear H2.
+      split; [|split].
+      * split; simpl. exact WCo. intros M. apply WAo. congruence.
+      * eapply views_ok_owner with (h := h) (b := o); try reflexivity; auto. split; auto.
+      * intros k' s3 H3 EQ. simpl in H3, EQ. destruct (Nat.eq_dec k' i) as [E|N].
+        -- subst k'. rewrite nth_error_upd_same in H3 by auto. inversion H3. apply same_owner_refl.
+        -- rewrite nth_error_upd_other in H3 by auto.
+           eapply same_owner_trans; [exact OWN|]. eapply SHo; eauto.
+    + rewrite nth_error_upd_other in H2 by auto.
+      destruct (I k s2 H2) as (W2 & (VM2 & VV2) & SH2).
+      split; [exact W2|split].
+      * eapply views_ok_owner with (h := h) (b := s2); try reflexivity. apply same_owner_refl. split; auto.
+      * intros k' s3 H3 EQ. simpl in H3. destruct (Nat.eq_dec k' i) as [E|N'].
+        -- subst k'. rewrite nth_error_upd_same in H3 by auto. inversion H3; subst s3. simpl in EQ.
+           apply same_owner_sym. eapply same_owner_trans; [exact OWN|].
+           eapply SHo; eauto.
+        -- rewrite nth_error_upd_other in H3 by auto. eapply SH2; eauto.
+  - cbn [new_cache fst snd].
+    eapply inv_rebind with (h := h) (a := []); eauto; simpl; try congruence.
+    + rewrite app_nil_r; reflexivity.
+    + intros M. destruct f.
+      * destruct (I j o Ho) as ((_ & WAo) & _). apply WAo. congruence.
+      * destruct (I i s Hs) as ((_ & WA) & _). apply WA. exact M.
+Qed.
+
+Ltac frame_rows h vs rs h' :=
+  let E := fresh "E" in let F := fresh "F" in
+  destruct (new_rows h vs) as [rs h'] eqn:E; pose proof (new_rows_frame h vs) as F; rewrite E in F;
+  simpl in F; destruct F as (?FA & ?FC & ?FS).
+
+Lemma inv_multi_to_single h i s p :
+  Inv h -> nth_error (streams h) i = Some s -> Inv (fst (multi_to_single pkgs h i s p)).
+Proof.
+  intros I Hs. unfold multi_to_single. cbn [new_row new_box new_cache fst snd].
+  eapply inv_rebind with (h := h) (a := []); eauto; simpl; try congruence.
+  rewrite app_nil_r; reflexivity.
+Qed.
+
+Lemma inv_set_phase h i s p :
+  Inv h -> nth_error (streams h) i = Some s -> Inv (fst (set_phase pkgs h i s p)).
+Proof.
+  intros I Hs. unfold set_phase. destruct (multi s).
+  - apply inv_multi_to_single; auto.
+  - simpl. eapply inv_struct; eauto.
+Qed.
+
+Lemma inv_single_to_multi h i s l :
+  Inv h -> nth_error (streams h) i = Some s -> Inv (fst (single_to_multi pkgs h i s l)).
+Proof.
+  intros I Hs. unfold single_to_multi.
+  destruct (pindex (psort l) (getbox h (pbox s))) as [t|]; [|exact I].
+  frame_rows h (upd (zero_rows (length (psort l)) (nchem pkgs (pkg s))) t (getrow h (sdata s))) rs h1.
+  cbn [new_arr new_cache fst snd].
+  eapply inv_rebind with (h := h) (a := [rs]); eauto; simpl; try congruence.
+  intros _. rewrite FA, app_length; simpl; lia.
+Qed.
+
+Lemma inv_multi_to_multi h i s l :
+  Inv h -> nth_error (streams h) i = Some s -> Inv (fst (multi_to_multi pkgs h i s l)).
+Proof.
+  intros I Hs. unfold multi_to_multi.
+  destruct (phases_eqb (psort l) (phs s)); [exact I|].
+  destruct (place_rows (psort l) (combine (phs s) (all_rows h s))
+             (zero_rows (length (psort l)) (nchem pkgs (pkg s)))) as [vals|]; [|exact I].
+  frame_rows h vals rs h1.
+  cbn [new_arr new_cache fst snd].
+  eapply inv_rebind with (h := h) (a := [rs]); eauto; simpl; try congruence.
+  intros _. rewrite FA, app_length; simpl; lia.
+Qed.
+
+Lemma inv_set_phases h i s l :
+  Inv h -> nth_error (streams h) i = Some s -> Inv (fst (set_phases pkgs h i s l)).
+Proof.
+  intros I Hs. unfold set_phases. destruct (psort l) as [|p [|q r]] eqn:E.
+  - exact I.
+  - apply inv_set_phase; auto.
+  - destruct (multi s).
+    + apply inv_multi_to_multi; auto.
+    + apply inv_single_to_multi; auto.
+Qed.
+
+Lemma inv_reset_none h i s k :
+  Inv h -> nth_error (streams h) i = Some s -> Inv (fst (reset_chemicals pkgs h i s k None)).
+Proof.
+  intros I Hs. unfold reset_chemicals. cbn [new_cache fst snd].
+  destruct (multi s) eqn:M.
+  - frame_rows (set_caches h (caches h ++ [cache0]))
+               (map (remap (chems pkgs (pkg s)) (chems pkgs k)) (all_rows h s)) rs h2.
+    cbn [new_arr fst snd].
+    eapply inv_rebind with (h := h) (a := [rs]); eauto; simpl; try congruence.
+    intros _. rewrite FA, app_length; simpl; lia.
+  - cbn [new_row fst snd].
+    eapply inv_rebind with (h := h) (a := []); eauto; simpl; try congruence.
+    rewrite app_nil_r; reflexivity.
+Qed.
+
+Lemma inv_reset_thermo h i s k :
+  Inv h -> nth_error (streams h) i = Some s -> Inv (fst (reset_thermo pkgs h i s k)).
+Proof.
+  intros I Hs. unfold reset_thermo. destruct (Nat.eqb (pkg s) k); [exact I|].
+  cbn [fst]. apply inv_reset_none; auto.
+Qed.
+
+(* ---------- the memo is transparent ---------- *)
+Hypothesis Vf_ext : forall g p T T' P P', T == T' -> P == P' -> Vf g p T P == Vf g p T' P'.
+
+Lemma memo_get_in k m e : memo_get k m = Some e -> In (k, e) m.
+Proof.
+  induction m as [|[j x] m IH]; simpl; intros H; try discriminate.
+  destruct (Nat.eqb j k) eqn:E.
+  - apply Nat.eqb_eq in E. inversion H; subst. left; reflexivity.
+  - right; auto.
+Qed.
+
+
+Lemma vfactor_ok h vv r k pk :
+  vv_pkg vv = pk -> vrow_ok pk r ->
+  fst (vfactor Vf pkgs h vv r k) ==
+    1000 * Vf (gid pkgs pk k) (base (src_phase h (vr_src r))) (fst (gettp h (vv_tp vv))) (snd (gettp h (vv_tp vv)))
+  /\ vrow_ok pk (snd (vfactor Vf pkgs h vv r k))
+  /\ vsrc (snd (vfactor Vf pkgs h vv r k)) = vsrc r.
+Proof.
+  intros PK OK. unfold vfactor. rewrite PK.
+  set (T := fst (gettp h (vv_tp vv))). set (P := snd (gettp h (vv_tp vv))).
+  set (ph := src_phase h (vr_src r)).
+  assert (FR : Qred (1000 * Vf (gid pkgs pk k) (base ph) T P) == 1000 * Vf (gid pkgs pk k) (base ph) T P
+               /\ vrow_ok pk (mkvrow (vr_dct r) (vr_src r)
+                    ((k, mkme T P ph (Qred (1000 * Vf (gid pkgs pk k) (base ph) T P))) :: vr_memo r))).
+  { split. apply Qred_correct. unfold vrow_ok. cbn [vr_memo]. constructor; auto.
+    unfold entry_ok. cbn [snd fst me_V me_ph me_T me_P]. apply Qred_correct. }
+  destruct (memo_get k (vr_memo r)) as [e|] eqn:M.
+  - destruct (phase_eqb (me_ph e) ph && qeqb (me_T e) T && qeqb (me_P e) P) eqn:C; cbn [fst snd].
+    + apply andb_prop in C. destruct C as (C & CP). apply andb_prop in C. destruct C as (CH & CT).
+      apply phase_eqb_eq in CH. apply Qeq_bool_iff in CT. apply Qeq_bool_iff in CP.
+      split; [|split; auto].
+      pose proof (proj1 (Forall_forall _ _) OK _ (memo_get_in _ _ _ M)) as EO.
+      unfold entry_ok in EO; cbn [fst snd] in EO. rewrite EO, CH.
+      rewrite (Vf_ext _ _ _ _ _ _ CT CP). reflexivity.
+    + destruct FR as (F1 & F2). split; [exact F1|split; [exact F2|reflexivity]].
+  - cbn [fst snd]. destruct FR as (F1 & F2). split; [exact F1|split; [exact F2|reflexivity]].
+Qed.
+
+Definition Vcur h (vv : volview) (pk : nat) (src : phsrc) (k : nat) : Q :=
+  1000 * Vf (gid pkgs pk k) (base (src_phase h src)) (fst (gettp h (vv_tp vv))) (snd (gettp h (vv_tp vv))).
+
+Lemma vsrc_src a b : vsrc a = vsrc b -> vr_src a = vr_src b.
+Proof. unfold vsrc. intros H. inversion H. auto. Qed.
+
+Lemma read_vrow_ok h vv pk vals : vv_pkg vv = pk -> forall r k0, vrow_ok pk r ->
+  vrow_ok pk (snd (read_vrow Vf pkgs h vv r k0 vals)) /\
+  vsrc (snd (read_vrow Vf pkgs h vv r k0 vals)) = vsrc r /\
+  forall j, nthq (fst (read_vrow Vf pkgs h vv r k0 vals)) j == nthq vals j * Vcur h vv pk (vr_src r) (k0 + j).
+Proof.
+  intros PK. induction vals as [|x t IH]; intros r k0 OK.
+  - simpl. split; auto. split; auto. intros j. rewrite !nthq_nil. lra.
+  - cbn [read_vrow]. destruct (qzerob x) eqn:Z.
+    + specialize (IH r (S k0) OK).
+      destruct (read_vrow Vf pkgs h vv r (S k0) t) as [o r'] eqn:E. cbn [fst snd] in *.
+      destruct IH as (A & B & C). split; auto. split; auto.
+      intros [|j]; unfold nthq in *; simpl.
+      * apply qzerob_true in Z. rewrite Z. lra.
+      * rewrite C. replace (k0 + S j)%nat with (S k0 + j)%nat by lia. reflexivity.
+    + destruct (vfactor_ok h vv r k0 pk PK OK) as (FV & FO & FS).
+      destruct (vfactor Vf pkgs h vv r k0) as [V r1] eqn:EV. cbn [fst snd] in *.
+      specialize (IH r1 (S k0) FO).
+      destruct (read_vrow Vf pkgs h vv r1 (S k0) t) as [o r'] eqn:E. cbn [fst snd] in *.
+      destruct IH as (A & B & C). split; auto. split; [congruence|].
+      intros [|j]; unfold nthq in *; simpl.
+      * rewrite FV. unfold Vcur. rewrite Nat.add_0_r. reflexivity.
+      * rewrite C. rewrite (vsrc_src _ _ FS).
+        replace (k0 + S j)%nat with (S k0 + j)%nat by lia. reflexivity.
+Qed.
+
+Lemma read_vrows_ok h vv pk : vv_pkg vv = pk -> forall l, Forall (vrow_ok pk) l ->
+  Forall (vrow_ok pk) (snd (read_vrows Vf pkgs h vv l)) /\
+  map vsrc (snd (read_vrows Vf pkgs h vv l)) = map vsrc l /\
+  forall n r, nth_error l n = Some r -> forall j,
+    nthq (nth n (fst (read_vrows Vf pkgs h vv l)) []) j
+      == nthq (getrow h (vr_dct r)) j * Vcur h vv pk (vr_src r) j.
+Proof.
+  intros PK. induction l as [|r l IH]; intros OK.
+  - simpl. split; auto. split; auto. intros [|n] r H; discriminate.
+  - apply Forall_cons_iff in OK. destruct OK as (OKr & OKl).
+    cbn [read_vrows].
+    destruct (read_vrow_ok h vv pk (getrow h (vr_dct r)) PK r O OKr) as (A & B & C).
+    destruct (read_vrow Vf pkgs h vv r 0 (getrow h (vr_dct r))) as [o r'] eqn:E.
+    destruct (IH OKl) as (A' & B' & C').
+    destruct (read_vrows Vf pkgs h vv l) as [os rs] eqn:E'. cbn [fst snd] in *.
+    split; [constructor; auto|]. split; [simpl; congruence|].
+    intros [|n] r0 H j; simpl in H.
+    + inversion H; subst r0. simpl. rewrite C. reflexivity.
+    + simpl. apply C'. exact H.
+Qed.
+
+Lemma map_vsrc_upd l r x y :
+  nth_error l r = Some y -> vsrc x = vsrc y -> map vsrc (upd l r x) = map vsrc l.
+Proof.
+  revert r; induction l as [|a l IH]; intros [|r] H E; simpl in *; try discriminate; auto.
+  - inversion H; subst. congruence.
+  - f_equal. auto.
+Qed.
+Lemma Forall_upd {A} (P : A -> Prop) l r x : Forall P l -> P x -> Forall P (upd l r x).
+Proof.
+  intros F Px. revert r; induction F as [|a l Pa F IH]; intros [|r]; simpl; auto.
+Qed.
+
+Lemma map_rows_struct h f l :
+  arrs (map_rows h f l) = arrs h /\ caches (map_rows h f l) = caches h /\ streams (map_rows h f l) = streams h.
+Proof. revert h; induction l as [|d l IH]; intros h; simpl; auto. destruct (IH (put_row h d (f (getrow h d)))) as (A & B & C). simpl in *. auto. Qed.
+
+Lemma inv_read_mass h i s : Inv h -> nth_error (streams h) i = Some s -> Inv (fst (read_mass MWf pkgs h s)).
+Proof.
+  intros I Hs. unfold read_mass. destruct (inv_by_mass h i s I Hs) as (A & _).
+  destruct (by_mass h s) as [h1 v]. exact A.
+Qed.
+
+Lemma inv_read_vol h i s : Inv h -> nth_error (streams h) i = Some s -> Inv (fst (read_vol Vf pkgs h s)).
+Proof.
+  intros I Hs. unfold read_vol.
+  destruct (by_volume_ok h i s I Hs) as (A & B & C & F).
+  destruct (read_vrows_ok h (by_volume h s) (pkg s) C _ F) as (F' & M & _).
+  destruct (read_vrows Vf pkgs h (by_volume h s) (vv_rows (by_volume h s))) as [m rs]. cbn [fst snd] in *.
+  eapply inv_store_vol; eauto. repeat split; simpl; auto. congruence.
+Qed.
+
+Lemma inv_get_item h i s w r k :
+  Inv h -> nth_error (streams h) i = Some s -> Inv (fst (get_item Vf MWf pkgs h s w r k)).
+Proof.
+  intros I Hs. unfold get_item. destruct w.
+  - destruct (nth_error (rowrefs h s) r); exact I.
+  - destruct (inv_by_mass h i s I Hs) as (A & _). destruct (by_mass h s) as [h1 v].
+    destruct (nth_error (mv_rows v) r); exact A.
+  - pose proof (by_volume_ok h i s I Hs) as OK. destruct OK as (A & B & C & F).
+    destruct (nth_error (vv_rows (by_volume h s)) r) as [vr|] eqn:E.
+    + destruct (qzerob (nthq (getrow h (vr_dct vr)) k)).
+      * eapply inv_store_vol; eauto. repeat split; auto.
+      * assert (OKr : vrow_ok (pkg s) vr).
+        { apply (proj1 (Forall_forall _ _) F). eapply nth_error_In; eauto. }
+        destruct (vfactor_ok h (by_volume h s) vr k (pkg s) C OKr) as (_ & FO & FS).
+        destruct (vfactor Vf pkgs h (by_volume h s) vr k) as [V vr']. cbn [fst snd] in *.
+        eapply inv_store_vol; eauto. repeat split; simpl; auto.
+        -- rewrite (map_vsrc_upd _ _ _ _ E FS). exact A.
+        -- apply Forall_upd; auto.
+    + eapply inv_store_vol; eauto. repeat split; auto.
+Qed.
+
+Lemma inv_put_item h d k x : Inv h -> Inv (put_item h d k x).
+Proof. intros I. eapply inv_struct; eauto. Qed.
+
+Lemma inv_set_item h i s w r k v :
+  Inv h -> nth_error (streams h) i = Some s -> Inv (fst (set_item Vf MWf pkgs h s w r k v)).
+Proof.
+  intros I Hs. unfold set_item. destruct w.
+  - destruct (nth_error (rowrefs h s) r); [apply inv_put_item|]; exact I.
+  - destruct (inv_by_mass h i s I Hs) as (A & _). destruct (by_mass h s) as [h1 mv].
+    destruct (nth_error (mv_rows mv) r); [apply inv_put_item|]; exact A.
+  - pose proof (by_volume_ok h i s I Hs) as OK. destruct OK as (A & B & C & F).
+    destruct (nth_error (vv_rows (by_volume h s)) r) as [vr|] eqn:E.
+    + destruct (qzerob v).
+      * apply inv_put_item. eapply inv_store_vol; eauto. repeat split; auto.
+      * assert (OKr : vrow_ok (pkg s) vr).
+        { apply (proj1 (Forall_forall _ _) F). eapply nth_error_In; eauto. }
+        destruct (vfactor_ok h (by_volume h s) vr k (pkg s) C OKr) as (_ & FO & FS).
+        destruct (vfactor Vf pkgs h (by_volume h s) vr k) as [V vr']. cbn [fst snd] in *.
+        apply inv_put_item. eapply inv_store_vol; eauto. repeat split; simpl; auto.
+        -- rewrite (map_vsrc_upd _ _ _ _ E FS). exact A.
+        -- apply Forall_upd; auto.
+    + eapply inv_store_vol; eauto. repeat split; auto.
+Qed.
+
+Lemma inv_set_total h i s w v :
+  Inv h -> nth_error (streams h) i = Some s -> Inv (fst (set_total Vf MWf pkgs h s w v)).
+Proof.
+  intros I Hs. unfold set_total, scale_all, empty_all.
+  assert (MR : forall f, Inv (map_rows h f (rowrefs h s))).
+  { intros f. destruct (map_rows_struct h f (rowrefs h s)) as (A & B & C). eapply inv_struct; eauto. }
+  destruct w.
+  - destruct (qzerob (total Vf MWf pkgs h s VMol)); [exact I|apply MR].
+  - destruct (negb (qzerob (total Vf MWf pkgs h s VMass))); [apply MR|].
+    destruct (negb (qzerob v)); [exact I|apply MR].
+  - destruct (qzerob (total Vf MWf pkgs h s VVol)); [exact I|apply MR].
+Qed.
+
+Lemma inv_alias_flags h i s : Inv h -> nth_error (streams h) i = Some s -> Inv (fst (alias_flags h s)).
+Proof.
+  intros I Hs. unfold alias_flags.
+  destruct (inv_by_mass h i s I Hs) as (A & _ & _ & _ & S & _).
+  destruct (by_mass h s) as [h1 mv]. cbn [fst snd] in *.
+  assert (Hs1 : nth_error (streams h1) i = Some s) by congruence.
+  eapply inv_store_vol; eauto. eapply by_volume_ok; eauto.
+Qed.
+
+(* ---------- copy_like ---------- *)
+Lemma copy_rows_like_struct h d x :
+  arrs (copy_rows_like h d x) = arrs h /\ caches (copy_rows_like h d x) = caches h /\
+  streams (copy_rows_like h d x) = streams h.
+Proof.
+  revert h x; induction d as [|a d IH]; intros h [|b x]; simpl; auto.
+  destruct (IH (put_row h a (getrow h b)) x) as (A & B & C). simpl in *. auto.
+Qed.
+
+Lemma expand_rows_frame n ps old : forall h,
+  arrs (snd (expand_rows h n ps old)) = arrs h /\ caches (snd (expand_rows h n ps old)) = caches h /\
+  streams (snd (expand_rows h n ps old)) = streams h.
+Proof.
+  induction ps as [|p ps IH]; intros h; simpl; auto.
+  destruct (find (fun x => phase_eqb (fst x) p) old) as [x|].
+  - specialize (IH h). destruct (expand_rows h n ps old) as [rs h1]. exact IH.
+  - specialize (IH (set_rows h (rows h ++ [vzero n]))).
+    destruct (expand_rows (set_rows h (rows h ++ [vzero n])) n ps old) as [rs h2]. exact IH.
+Qed.
+
+Lemma shares_false h i a :
+  stream_shares_arr h i a = false ->
+  forall j s2, j <> i -> nth_error (streams h) j = Some s2 -> multi s2 = true -> sdata s2 <> a.
+Proof.
+  unfold stream_shares_arr. intros H j s2 N Hj M E.
+  assert (IN : In (j, s2) (combine (seq O (length (streams h))) (streams h))).
+  { clear - Hj. revert j Hj. generalize (streams h). intros l.
+    assert (G : forall b j, nth_error l j = Some s2 -> In ((b + j)%nat, s2) (combine (seq b (length l)) l)).
+    { induction l as [|x l IH]; intros b [|j] Hj; simpl in *; try discriminate.
+      - inversion Hj. left. f_equal. lia.
+      - right. replace (b + S j)%nat with (S b + j)%nat by lia. apply IH. exact Hj. }
+    intros j Hj. apply (G O j Hj). }
+  rewrite <- Bool.not_true_iff_false in H. apply H.
+  apply existsb_exists. exists true. split; auto.
+  apply in_map_iff. exists (j, s2). split; auto. simpl.
+  rewrite M. rewrite E, Nat.eqb_refl. destruct (Nat.eqb j i) eqn:Q; auto.
+  apply Nat.eqb_eq in Q. contradiction.
+Qed.
+
+Lemma inv_expand h i s ps rs :
+  Inv h -> nth_error (streams h) i = Some s -> multi s = true ->
+  stream_shares_arr h i (sdata s) = false ->
+  forall h4, arrs h4 = upd (arrs h) (sdata s) rs -> caches h4 = upd (caches h) (cch s) cache0 ->
+  streams h4 = upd (streams h) i (mkstream true (sdata s) (pbox s) ps (pkg s) (cch s) (tc s)) ->
+  Inv h4.
+Proof.
+  intros I Hs M NS h4 A C S.
+  set (s1 := mkstream true (sdata s) (pbox s) ps (pkg s) (cch s) (tc s)) in *.
+  assert (LI : (i < length (streams h))%nat) by (eapply nth_error_lt; eauto).
+  destruct (I i s Hs) as ((WC & WA) & _ & SH).
+  assert (ALONE : forall j s2, j <> i -> nth_error (streams h) j = Some s2 -> cch s2 <> cch s).
+  { intros j s2 N H2 E. destruct (SH j s2 H2 (eq_sym E)) as (D & MM & _).
+    eapply (shares_false h i (sdata s) NS j s2); eauto; congruence. }
+  intros j s2 H2. rewrite S in H2. destruct (Nat.eq_dec j i) as [E|N].
+  - subst j. rewrite nth_error_upd_same in H2 by auto. inversion H2; subst s2. clear H2.
+    split; [|split].
+    + split; simpl. rewrite C, upd_length. exact WC. intros _. rewrite A, upd_length. auto.
+    + unfold views_ok, getcache. rewrite C. simpl. rewrite nth_upd_eq by auto. simpl.
+      split; intros v Hv; discriminate.
+    + intros j s3 H3 EQ. rewrite S in H3. destruct (Nat.eq_dec j i) as [E|N].
+      * subst j. rewrite nth_error_upd_same in H3 by auto. inversion H3. apply same_owner_refl.
+      * rewrite nth_error_upd_other in H3 by auto. exfalso. eapply ALONE; eauto.
+  - rewrite nth_error_upd_other in H2 by auto.
+    destruct (I j s2 H2) as ((WC2 & WA2) & (VM2 & VV2) & SH2).
+    assert (ES : srcs h4 s2 = srcs h s2).
+    { apply srcs_ext. intros M2. unfold getarr. rewrite A. apply nth_upd_neq.
+      intros Q. eapply (shares_false h i (sdata s) NS j s2); eauto. }
+    assert (EC : getcache h4 (cch s2) = getcache h (cch s2)).
+    { unfold getcache. rewrite C. apply nth_upd_neq. intros Q. eapply ALONE; eauto. }
+    split; [|split].
+    + split. rewrite C, upd_length. exact WC2. rewrite A, upd_length. exact WA2.
+    + unfold views_ok. rewrite EC. split; intros v Hv.
+      * eapply mass_ok_ext; [exact ES|]. apply VM2; auto.
+      * eapply vol_ok_ext; [exact ES|]. apply VV2; auto.
+    + intros j' s3 H3 EQ. rewrite S in H3. destruct (Nat.eq_dec j' i) as [E|N'].
+      * subst j'. rewrite nth_error_upd_same in H3 by auto. inversion H3; subst s3. simpl in EQ.
+        exfalso. eapply ALONE; eauto.
+      * rewrite nth_error_upd_other in H3 by auto. eapply SH2; eauto.
+Qed.
+
+Lemma inv_copy_like h i s o same :
+  Inv h -> nth_error (streams h) i = Some s -> Inv (fst (copy_like pkgs h i s o same)).
+Proof.
+  intros I Hs. unfold copy_like.
+  destruct same; [exact I|].
+  destruct (negb (Nat.eqb (pkg s) (pkg o))); [exact I|].
+  destruct (multi s) eqn:M; destruct (multi o) eqn:MO.
+  - destruct (phases_eqb (phs s) (phs o)); [|exact I]. cbn [fst].
+    destruct (copy_rows_like_struct h (rowrefs h s) (rowrefs h o)) as (A & B & C).
+    eapply inv_struct; eauto.
+  - destruct (map_rows_struct h (fun v => vzero (length v)) (rowrefs h s)) as (A0 & C0 & S0).
+    unfold empty_all.
+    destruct (pindex (phs s) (getbox h (pbox o))) as [k|].
+    + destruct (nth_error (rowrefs (map_rows h (fun v => vzero (length v)) (rowrefs h s)) s) k); cbn [fst]; eapply inv_struct; eauto.
+    + destruct (stream_shares_arr h i (sdata s)) eqn:NS; [exact I|].
+      set (h0 := map_rows h (fun v => vzero (length v)) (rowrefs h s)) in *.
+      pose proof (expand_rows_frame (nchem pkgs (pkg s)) (psort (getbox h (pbox o) :: phs s))
+                    (combine (phs s) (getarr h0 (sdata s))) h0) as F.
+      destruct (expand_rows h0 (nchem pkgs (pkg s)) (psort (getbox h (pbox o) :: phs s))
+                  (combine (phs s) (getarr h0 (sdata s)))) as [rs h1]. cbn [fst snd] in F.
+      destruct F as (FA & FC & FS).
+      assert (G : forall h4, arrs h4 = upd (arrs h1) (sdata s) rs -> caches h4 = upd (caches h1) (cch s) cache0 ->
+                  streams h4 = upd (streams h1) i (mkstream true (sdata s) (pbox s)
+                                 (psort (getbox h (pbox o) :: phs s)) (pkg s) (cch s) (tc s)) -> Inv h4).
+      { intros h4 A4 C4 S4. eapply (inv_expand h i s _ rs I Hs M NS).
+        - rewrite A4, FA, A0. reflexivity.
+        - rewrite C4, FC, C0. reflexivity.
+        - rewrite S4, FS, S0. reflexivity. }
+      destruct (pindex (psort (getbox h (pbox o) :: phs s)) (getbox h (pbox o))) as [k|].
+      * destruct (nth_error rs k); cbn [fst]; apply G; reflexivity.
+      * cbn [fst]. apply G; reflexivity.
+  - destruct (phs o) as [|p [|q r]] eqn:PO.
+    + pose proof (inv_single_to_multi h i s [] I Hs) as I1.
+      destruct (single_to_multi pkgs h i s []) as [h1 x]. cbn [fst] in I1.
+      destruct x; try exact I1.
+      destruct (nth_error (streams h1) i) as [s1|]; [|exact I1]. cbn [fst].
+      destruct (copy_rows_like_struct h1 (rowrefs h1 s1) (rowrefs h1 o)) as (A & B & C).
+      eapply inv_struct; [| | |exact I1]; simpl; auto.
+    + cbn [fst]. eapply inv_struct; eauto.
+    + pose proof (inv_single_to_multi h i s (p :: q :: r) I Hs) as I1.
+      destruct (single_to_multi pkgs h i s (p :: q :: r)) as [h1 x]. cbn [fst] in I1.
+      destruct x; try exact I1.
+      destruct (nth_error (streams h1) i) as [s1|]; [|exact I1]. cbn [fst].
+      destruct (copy_rows_like_struct h1 (rowrefs h1 s1) (rowrefs h1 o)) as (A & B & C).
+      eapply inv_struct; [| | |exact I1]; simpl; auto.
+  - cbn [fst]. eapply inv_struct; eauto.
+Qed.
+
+End Proofs.
